@@ -8,6 +8,21 @@ several content patterns; a deterministic subset also runs in the real kernel
 (BPF_PROG_TEST_RUN) and must agree with the interpreter.  The oracle is
 ``struct.unpack_from`` / ``struct.pack`` on a Python copy of the packet.
 
+Constants written into a variable come, per format, from the boundary values
+2^k - 1, 2^k, -2^k, -2^k - 1 for k in 7, 8, 15, 16, 31, 32, 63 (where the
+format's range allows) and, for formats with a byte order prefix, the values
+whose byte-swapped image is such a boundary: every place where the encoding
+of a constant (store-immediate, 32-bit move, 64-bit load) can change.
+
+A second family has two or three packet-size guards per program (``forests``
+/ ``guard_cases``): every ordered forest of guards where a guard sits in the
+with-body or in the Else body of another one or follows it, each guard
+written without ``as``, with ``as p`` or with ``as p`` and ``with p.Else:``
+(the Else of an outer guard comes after the guards nested in its body), also
+under ``minimumPacketSize``.  Every body stores a marker and a tag byte into
+the last packet byte its guards promise; the oracle evaluates the
+comparisons on the packet length, for every length around every guard value.
+
 Operands and results travel through one array-map value (raw instructions
 only, register r6): bytes [0,64) inputs, bytes [64,128) outputs.
 """
@@ -28,7 +43,17 @@ RULE = ("programs = access path (PacketVar under minimumPacketSize, pB/pH/pI/pQ 
         "x format x offset x operation (read into registers/locals, write of "
         "constant/register/local, in-place += -= |= &=); each program runs on "
         "every packet length around the guard x content pattern x operand "
-        "value; a run is non-trivial when the guarded body executed and the "
+        "value; constants written = per format the boundaries 2^k-1, 2^k, "
+        "-2^k, -2^k-1 (k = 7 8 15 16 31 32 63, within the format's range) plus "
+        "for byte-order-prefixed formats their byte-swapped images, in-place "
+        "amounts include the 32-bit immediate boundaries; second family: all "
+        "ordered forests of 1-3 packetSize guards (guard in the with-body / in "
+        "the Else body of / after another guard) x comparison x {no as, as p, "
+        "as p + p.Else} x guard values, with and without minimumPacketSize, "
+        "each body leaving a marker and a tag in the last promised packet "
+        "byte, run on every length within 2 of every guard value (and 1, 14, "
+        "1514) x 2 contents, judged by evaluating the comparisons on the "
+        "length; a run is non-trivial when a guarded body executed and the "
         "oracle judged the accessed bytes (counted as judged_runs); distinct = "
         "distinct (program, content pattern)")
 
@@ -385,6 +410,16 @@ def const_values(fmt, seed):
     return sorted(set(base_consts(fmt, seed)) | set(extra_consts(fmt, seed)))
 
 
+def ip_consts(fmt, quick):
+    """constant amounts of in-place updates: small ones and, where the
+    variable is wide enough to hold them, the 32-bit immediate boundaries"""
+    n = SIZE[letter(fmt)]
+    cs = [3, 0x81] if quick else [1, 3, 0x81, -2]
+    big = [0x80000000] if quick else [
+        0x7fffffff, 0x80000000, 0xffffffff, 0x100000000, -0x80000001]
+    return cs + [c for c in big if n >= 4 and abs(c) < 1 << (8 * n)]
+
+
 def operations(fmt, seed, quick):
     ops = []
     if letter(fmt) == "x":
@@ -404,7 +439,7 @@ def operations(fmt, seed, quick):
     for f in ("bHiQ" if quick else LETTERS):
         ops.append(("wv", f))
     for o in IPOPS:
-        for c in (3, 0x81) if quick else (1, 3, 0x81, -2):
+        for c in ip_consts(fmt, quick):
             ops.append(("ip", o, "const", c))
         for k in ("r", "w"):
             ops.append(("ip", o, "reg", k))
@@ -1065,6 +1100,10 @@ def run(ctx):
                     op=["rd", "reg", "r"]))
     res.sample(dict(path="le", guard=24, fmt="I", off=20,
                     op=["ip", "+=", "reg", "w"]))
+    res.sample(dict(path="var", guard=16, fmt=">Q", off=8,
+                    op=["wc", 0x8000000000]))
+    res.sample(dict(family="guards", min=None, top=[
+        ["gt", 16, "else", [["gt", 24, "anon", [], []]], []]]))
     res.assumptions += [
         "a value read into a destination of n bits must equal the "
         "struct.unpack value modulo 2^n (two's complement); for 32-bit "
@@ -1078,6 +1117,16 @@ def run(ctx):
         "accepted.  packetSize > >= < <= n: the with-body runs exactly when "
         "the comparison of the packet length with n holds, the Else part "
         "otherwise",
+        "programs with several guards: a with-body runs exactly when its "
+        "comparison holds for the packet length and control reaches it, its "
+        "Else body exactly when the comparison does not hold; a body accesses "
+        "only byte n-1 where n is the largest size promised by the guards "
+        "around it (packetSize > n and >= n in the with-body, < n and <= n in "
+        "the Else body, minimumPacketSize n: n bytes, as documented, although "
+        "> n would allow n+1); under minimumPacketSize n the length n itself "
+        "may or may not run the body.  Whether the kernel verifier accepts a "
+        "program that uses an outer guard's promise after an inner guard "
+        "reloaded r9 is not judged (counted as kernel_rejected)",
         "32-bit signed registers (sw) as write sources are C01's subject "
         "(known finding there) and are only judged through the range rule",
         "native byte order and standard sizes are those of this machine "
